@@ -35,6 +35,9 @@ class Config:
     init: str = "exact"  # exact | inexact
     base_scale: object = None  # None or float (iso) / list (dense, bd)
     inexact_eps: float = 2.0**-10
+    prior: str = "iwp"  # iwp | ou | matern   (exponential priors: dense only; transition taken from the implementation, C09 covers it)
+    diffuse: int = 0  # number of diffuse derivatives appended by the prior constructor (std 1, mean 0)
+    constraint_init: bool = False  # condition the initial state on the constraint (lstsq gain)
 
     def key(self):
         d = dataclasses.asdict(self)
@@ -57,28 +60,44 @@ def build(cfg: Config, field, u0s, t0):
         vf = pdq.ode(lambda u, /, *, t: f(u, t=t), jacobian=pdq.jacobian_materialize())
     else:
         vf = pdq.ode_order_two(lambda u, du, /, *, t: f(u, du, t=t), jacobian=pdq.jacobian_materialize())
-    num = cfg.q + 1 - field.order
-    jetexpand = pdq.jetexpand_ode_padded_scan(num=num)
-    tcoeffs, _ = jetexpand(vf, tuple(jnp.asarray(u) for u in u0s), t=jnp.asarray(t0))
+    num = cfg.q + 1 - field.order - cfg.diffuse
+    if num < 0:
+        raise ValueError("too many diffuse derivatives for this order")
+    if num > 0:
+        jetexpand = pdq.jetexpand_ode_padded_scan(num=num)
+        tcoeffs, _ = jetexpand(vf, tuple(jnp.asarray(u) for u in u0s), t=jnp.asarray(t0))
+    else:
+        tcoeffs = [jnp.asarray(u) for u in u0s]
     kw = {}
     if cfg.base_scale is not None:
         kw["output_scale"] = jnp.asarray(cfg.base_scale)
-    if cfg.init == "exact":
+    if cfg.diffuse:
+        kw["diffuse_derivatives"] = cfg.diffuse
+        kw["diffuse_eps"] = 1.0
+    if cfg.init != "exact":
+        kw["is_exact"] = False
+        kw["inexact_eps"] = cfg.inexact_eps
+    if cfg.prior == "iwp":
         prior = ssm.prior_wiener_integrated(tcoeffs, **kw)
+    elif cfg.prior == "ou":
+        prior = ssm.prior_ornstein_uhlenbeck_integrated(lambda u: -0.5 * u, tcoeffs, **kw)
+    elif cfg.prior == "matern":
+        prior = ssm.prior_matern(0.75, tcoeffs, **kw)
     else:
-        prior = ssm.prior_wiener_integrated(tcoeffs, is_exact=False, inexact_eps=cfg.inexact_eps, **kw)
+        raise ValueError(cfg.prior)
     strategy = {"filter": pdq.strategy_filter, "fixedinterval": pdq.strategy_smoother_fixedinterval, "fixedpoint": pdq.strategy_smoother_fixedpoint}[cfg.strategy]()
     constraint = ssm.constraint_ode_ts0(vf) if cfg.lin == "ts0" else ssm.constraint_ode_ts1(vf)
+    ci = {"constraint_init": constraint} if cfg.constraint_init else {}
     if cfg.solver == "solver":
-        solver = pdq.solver(strategy=strategy, constraint=constraint)
+        solver = pdq.solver(strategy=strategy, constraint=constraint, **ci)
     elif cfg.solver == "mle":
-        solver = pdq.solver_mle(strategy=strategy, constraint=constraint)
+        solver = pdq.solver_mle(strategy=strategy, constraint=constraint, **ci)
     elif cfg.solver == "mle_nocorr":
-        solver = pdq.solver_mle(strategy=strategy, constraint=constraint, correct_asymptotic_underconfidence=False)
+        solver = pdq.solver_mle(strategy=strategy, constraint=constraint, correct_asymptotic_underconfidence=False, **ci)
     elif cfg.solver == "dynamic":
-        solver = pdq.solver_dynamic(strategy=strategy, constraint=constraint)
+        solver = pdq.solver_dynamic(strategy=strategy, constraint=constraint, **ci)
     elif cfg.solver == "dynamic_relin":
-        solver = pdq.solver_dynamic(strategy=strategy, constraint=constraint, re_linearize_after_calibration=True)
+        solver = pdq.solver_dynamic(strategy=strategy, constraint=constraint, re_linearize_after_calibration=True, **ci)
     else:
         raise ValueError(cfg.solver)
     return {"ssm": ssm, "vf": vf, "prior": prior, "strategy": strategy, "constraint": constraint, "solver": solver, "tcoeffs": tcoeffs}
@@ -183,9 +202,12 @@ def st_args(st):
 class ModelStepper:
     """Executes model steps per slice. `d`: state dimension, `q`: number of derivatives."""
 
-    def __init__(self, ctx, cfg: Config, field, d, lam):
-        """lam: base output scale per dimension (list of exact Fractions, length d; iso: all equal)."""
+    def __init__(self, ctx, cfg: Config, field, d, lam, prior=None):
+        """lam: base output scale per dimension (list of exact Fractions, length d; iso: all equal).
+        prior: the implementation's prior object; needed for non-IWP priors, whose transition is taken from the
+        implementation (abstraction function: `prior.transition(dt, 1)` read as an exact PCond; C09 covers it)."""
         self.ctx, self.cfg, self.field, self.d, self.q = ctx, cfg, field, d, cfg.q
+        self.prior = prior
         self.lam = lam
         self.K = field.order
         self.n = cfg.q + 1
@@ -197,6 +219,13 @@ class ModelStepper:
     # -- transition per slice for total squared calibrated scale `s2` (scalar or per-dim list)
     def transitions(self, h, s2):
         drv, out = self.ctx.drv, []
+        if self.cfg.prior != "iwp":
+            import jax.numpy as jnp
+
+            if s2 != 1:
+                raise core.HarnessError("exponential priors are driven with unit calibrated scale only")
+            tr = self.prior.transition(dt=jnp.asarray(float(h)), output_scale=jnp.ones(()))
+            return cond_slices(self.cfg.fact, tr)
         if self.cfg.fact == "dense":
             s2v = s2 if not isinstance(s2, (list, tuple)) else s2[0]
             lam2 = [l * l for l in self.lam]
@@ -277,6 +306,17 @@ class ModelStepper:
             except Exception:  # noqa: BLE001
                 out.append(np.zeros(len(mf)))
         return out
+
+    def init_update(self, states, t0):
+        """the initial-constraint update of `solver.init` (lstsq gain = minimum-norm certificate)"""
+        drv, n, k = self.ctx.drv, self.N, self.kdim
+        lins = self.linearise([st["mean"] for st in states], t0)
+        news, mahas = [], []
+        for st, (H, b, R) in zip(states, lins):
+            ans = Cut(drv.call("sv_init_update", n, k, 1, H, b, R, *st_args(st)))
+            news.append({"mean": ans.take(n), "cov": ans.take(n, n), "bw": read_pcond(ans, n, n)})
+            mahas.append(ans.take())
+        return news, mahas, lins
 
     def amplification(self, lins, means):
         """cancellation factor of the residual r = H m + b: max |H||m|+|b| over max |r| (float; >= 1)"""
@@ -430,3 +470,35 @@ def compare_bw(ctx, name, ci, cm, tol, case, sigprefix, kappa=1.0, prior_var=Non
     dQ = float(np.max(np.abs(Qi - Qm) / scq)) / kappa
     ok &= ctx.dev(f"{name}.bw.Q", dQ, tol, case=case, sig=f"{sigprefix}:bw.Q", what=f"{name} backward noise deviates by {dQ:.3e} (relative to filter variances, / kappa)")
     return ok
+
+
+# ------------------------------------------------------------------------------------------------
+# non-finite implementation states
+
+
+def state_is_finite(sol) -> bool:
+    import jax
+
+    leaves = jax.tree_util.tree_leaves((sol.u, sol.output_scale))
+    return all(bool(np.all(np.isfinite(np.asarray(x, dtype=np.float64)))) for x in leaves)
+
+
+def nonfinite_signature(ctx, cfg: Config, stepper: "ModelStepper", s0, t, h) -> tuple[str, str]:
+    """The implementation returned a non-finite state from finite input `s0`. Ask the model why.
+    Returns (signature, explanation).  Known class (finding D8): dynamic calibration with an *exactly* zero whitened
+    residual (local scale 0 -> zero process noise -> 0/0 in the update)."""
+    if cfg.solver.startswith("dynamic"):
+        try:
+            tr1s = stepper.transitions(h, Fraction(1))
+            ups = [np.array(ctx.drv.call("sv_apply_mean", stepper.N, *pc_args(tr), *st_args(st)), dtype=object) for tr, st in zip(tr1s, s0)]
+            lin0 = stepper.linearise(ups, t + h)
+            zero = []
+            for (H, b, R), m in zip(lin0, ups):
+                r = [sum(H[i][j] * m[j] for j in range(len(m))) + b[i] for i in range(len(b))]
+                zero.append(all(x == 0 for x in r))
+            if (cfg.fact == "bd" and any(zero)) or all(zero):
+                return ("dynamic:zero-residual:nan", "solver_dynamic: the whitened residual of the mean-only prediction is exactly zero "
+                        "(a solution component is a polynomial of degree <= q); local scale 0 -> 0/0 -> NaN")
+        except Exception:  # noqa: BLE001
+            pass
+    return (f"nonfinite-state:{cfg.fact}:{cfg.solver}:{cfg.strategy}:{cfg.lin}", "implementation returned a non-finite state from a finite state")
